@@ -500,7 +500,8 @@ impl HttpServer {
     /// Note that this function can block the thread on write, since the
     /// operation is blocking.
     pub fn flush_outgoing_writes(&mut self) {
-        for (_, connection) in self.connections.iter_mut() {
+        for (fd, connection) in self.connections.iter_mut() {
+            let was_outgoing = connection.state == ClientConnectionState::AwaitingOutgoing;
             while connection.state == ClientConnectionState::AwaitingOutgoing {
                 if let Err(e) = connection.write() {
                     if let ServerError::ConnectionError(ConnectionError::InvalidWrite) = e {
@@ -509,6 +510,15 @@ impl HttpServer {
                     }
                     break;
                 }
+            }
+            // A connection that has been flushed completely waits for input again; its
+            // `epoll` event set has to follow, as it does in `requests()`.
+            if was_outgoing && connection.state == ClientConnectionState::AwaitingIncoming {
+                let _ = Self::epoll_mod(
+                    &self.epoll,
+                    *fd,
+                    epoll::EventSet::IN | epoll::EventSet::READ_HANG_UP,
+                );
             }
         }
     }
